@@ -159,6 +159,11 @@ func (c *FnCtx) instrAlloc(x *ssa.Alloc) {
 	}
 	if n, ok := types.Unalias(et).(*types.Named); ok && n.Obj().Pkg() != nil && !c.eng.ownPkg(n.Obj().Pkg().Path()) {
 		if _, isStruct := n.Underlying().(*types.Struct); isStruct {
+			if namedIs(et, "strings", "Builder") || namedIs(et, "bytes", "Buffer") {
+				// the zero value of a buffer is an empty buffer: nothing written yet
+				h := c.heapGet("GH_out", "(Array Int Str)")
+				c.heapSet("GH_out", "(Array Int Str)", sto(h, r, "str_empty"))
+			}
 			return // foreign struct: opaque object
 		}
 	}
